@@ -103,11 +103,15 @@ theorem keepsM_trimLeft (y : Bytes) : KeepsM y trimLeftM := by
 
 theorem keepsM_trimRight (y : Bytes) : KeepsM y trimRightM := fun _ => .ret _ rfl
 
+theorem keepsM_writeVerbatim (y : Bytes) (b : Bytes) : KeepsM y (writeVerbatimM b) := by
+  unfold writeVerbatimM
+  exact keepsM_bind (keepsM_write y []) (fun _ => keepsM_bind (keepsM_write y b) (fun _ => keepsM_flush y))
+
 theorem keepsM_writeAll (y : Bytes) : ∀ cs, KeepsM y (writeAllM cs)
   | [] => keepsM_pure _ ()
   | c :: cs => by
     unfold writeAllM
-    exact keepsM_bind (keepsM_write y c) (fun _ => keepsM_writeAll y cs)
+    exact keepsM_bind (keepsM_writeVerbatim y c) (fun _ => keepsM_writeAll y cs)
 
 /-- what holds of every possible result holds of the result on a fault-free writer -/
 theorem AllRet.runPure {α} {Q : α → Prop} {p : Prog α} (h : AllRet Q p) (out : Bytes) (a : α)
@@ -351,7 +355,7 @@ theorem keeps_renderNode (c : RCtx) (y : Bytes) : ∀ n : Node, y ∉ writesNode
     refine keepsM_wrapFailAt _ _ (keepsM_bind (keepsM_getVar y _) (fun lv => ?_))
     split
     · exact keepsM_fail y _
-    · exact keepsM_bind (keepsM_setVar y _ _ hx) (fun _ => keepsM_bind (keepsM_write y _) (fun _ => keepsM_pure y _))
+    · exact keepsM_bind (keepsM_setVar y _ _ hx) (fun _ => keepsM_bind (keepsM_writeVerbatim y _) (fun _ => keepsM_pure y _))
   | .brk line, _ => by unfold renderNode; exact keepsM_pure y _
   | .cont line, _ => by unfold renderNode; exact keepsM_pure y _
   | .incl line args, _ => by
@@ -363,7 +367,7 @@ theorem keeps_renderNode (c : RCtx) (y : Bytes) : ∀ n : Node, y ∉ writesNode
       refine keepsM_bind (keepsM_inc y c _ _ _) (fun r => ?_)
       obtain ⟨st, out⟩ := r
       cases st with
-      | done => exact keepsM_bind (keepsM_write y _) (fun _ => keepsM_pure y _)
+      | done => exact keepsM_bind (keepsM_writeVerbatim y _) (fun _ => keepsM_pure y _)
       | brk e => exact keepsM_pure y _
       | cont e => exact keepsM_pure y _
     · exact keepsM_fail y _
